@@ -10,7 +10,9 @@ import (
 func algorithmCipher(a ipmi.ConfidentialityAlgorithm, g AdditionalKeyMaterialGenerator) (layerexts.SerializableDecodingLayer, error) {
 	switch a {
 	case ipmi.ConfidentialityAlgorithmNone:
-		return nil, nil
+		// sending unencrypted payloads is not implemented; a nil layer here
+		// would panic when registered with the session's decoder
+		return nil, fmt.Errorf("unsupported confidentiality algorithm: %v", a)
 	case ipmi.ConfidentialityAlgorithmAESCBC128:
 		key := [16]byte{}
 		copy(key[:], g.K(2))
